@@ -94,6 +94,11 @@ CHECKS = {
    technique="exhaustive product enumeration (flavours x values x API functions) differential against the owning runtimes + controlled-scheduler exploration of ALL interleavings of the first classification of a never-seen type (sync.Map behind the shim)",
    text="Mode X: fast-marshal corpus types of gogo/legacy v1/gv2/gv1 and plain messages (google v2 well-known types and descriptors, gogo descriptor and self-marshaling types, hand-written Google V1 messages with and without XXX_ methods) x Marshal/Unmarshal (4 directions)/Size/Clone/Equal (all ordered pairs incl. cross-runtime)/Reset/MarshalText/MsgType/GrpcCodec against the owning runtime called directly; 9 unsupported values and typed-nil pointers: documented error / zero result, no panic. Mode S: 2-4 goroutines calling MsgType/Clone/Equal/HasExtension on a type evicted from the classification cache before every execution; every interleaving of the sync.Map operations (unbounded preemptions); every goroutine must see the right class and the final cache entry must be right.",
    note="Decoded/cloned messages are compared bit-exactly through reflection (the runtimes' Equal treats NaN as unequal); csproto.Equal itself is compared with the runtime's Equal. Sequential consistency assumed; sync.Map internals are trusted."),
+
+ "C09": dict(level="model_checking", design="DESIGN.md §7 C09",
+   technique="exhaustive operation-sequence exploration (all histories to depth 4 over a 18/27-operation alphabet, replayed on fresh real messages, reference-model comparison per observer, mechanism attribution by cache neutralisation) + controlled-scheduler exploration of concurrent Size/Marshal with the generated code's atomics as scheduling points; -race pass as sampling complement",
+   text="Histories: every sequence of length 4 over {set/clear scalar, grow/shrink string across the 127/128 boundary, set/clear nested message, mutate nested message only, append/truncate list, mutate list element only, Size, Marshal, MarshalTo, csproto.Size/Marshal, runtime Size/Marshal, Unmarshal x2, Reset, Clone-and-continue} on the recursive corpus message of p2 and p3 for every runtime; every observer must return the reference marshal of a fresh tree built from the model contents. Schedules: 2-3 goroutines calling Size/Marshal/csproto.Marshal/runtime Size/Marshal on a shared nested message (caches cold / warm / written by the runtime), preemption bound 3 (5) resp. 2 (3), scheduling points at every atomic load/store of the generated code.",
+   note="Failing histories are attributed to the known size-cache mechanism only if re-running them with all size-cache words zeroed right before the failing call passes AND a cache-writing call precedes the last mutation; anything else is a new violation. Runtime calls are atomic steps of the scheduler; the -race pass is sampling."),
 }
 
 NOT_YET = {}
